@@ -320,10 +320,9 @@ class BaseCommand(FlockMixin, ABC):
         if self.config.hooks:
             self.run_hook(HookVariant.PRE)
 
-        await self._db_insert_run_meta()
-
         exit_code = 0
         try:
+            await self._db_insert_run_meta()
             exit_code = await self.run()
         # asyncio.run() delivers Ctrl-C as a cancellation of the main task.
         except (KeyboardInterrupt, asyncio.CancelledError):
